@@ -14,3 +14,8 @@ package commodity
 //@ func Compare
 //@   requires c1 != nil && c2 != nil
 //@   ensures [C06] [C05] @lex: result == comCmp(c1, c2)
+//
+//@ func (*Registry).Get
+//@   trusted
+//@   modifies cs.index[*]
+//@   ensures result.1 == nil ==> result.0 != nil
